@@ -23,7 +23,9 @@ import (
 	"fmt"
 	"os"
 	"os/exec"
+	"path/filepath"
 	"regexp"
+	"runtime/debug"
 	"sort"
 	"strconv"
 	"strings"
@@ -1789,6 +1791,10 @@ func replay(path string) {
 		sectionDropRace()
 	case "beforerace":
 		sectionBeforeRace()
+	case "trunc2race":
+		sectionTrunc2Race()
+	case "restartleft":
+		sectionRestartLeft()
 	case "hull":
 		sectionHull()
 	default:
@@ -2099,6 +2105,200 @@ func sectionBeforeRace() {
 }
 
 // ---------------------------------------------------------------------------------------------
+// trunc2race: two TRUNCATE statements overlap on one partition (hook partition.truncate.chosen)
+
+func datFiles(dir string) int {
+	n := 0
+	filepath.Walk(dir, func(p string, info os.FileInfo, err error) error {
+		if err == nil && !info.IsDir() && strings.HasSuffix(p, ".dat") && strings.Contains(p, string(filepath.Separator)+"db"+string(filepath.Separator)) {
+			n++
+		}
+		return nil
+	})
+	return n
+}
+
+func sectionTrunc2Race() {
+	if !verifhook.Enabled {
+		return
+	}
+	sec := res.Section("trunc2race", "spec-search",
+		"deterministic replay of one interleaving: a partition of three chunks; statement B (TRUNCATE MAXSIZE keeping the newest chunk) is parked after it chose the two oldest chunks (hook partition.truncate.chosen); statement A, the same text, runs to completion and its asynchronous chunk removal has finished (the chunk files are gone); then B continues. Both statements must complete (no panic) and the newest chunk's events must be what is left")
+	defer res.Done(sec)
+	dir := lrsrv.NewDir()
+	defer os.RemoveAll(dir)
+	srv, err := lrsrv.Start(dir, lrsrv.Opts{MaxChunkSize: 100})
+	if err != nil {
+		res.Note("trunc2race: %v", err)
+		return
+	}
+	defer srv.Stop()
+	tags := "g=x,p=1"
+	var evs []*api.LogEvent
+	for i := 1; i <= 15; i++ {
+		evs = append(evs, &api.LogEvent{Timestamp: int64(i), Message: fmt.Sprintf("%04d_", i)})
+	}
+	var wr api.WriteResult
+	srv.Client.Write(context.Background(), tags, "", evs, &wr)
+	srv.FlushWait()
+	settle(srv, tags, 15)
+	before := observe(srv, tags)
+	if len(before.Chunks) != 3 {
+		res.Note("trunc2race: layout is not three chunks: %s", before.layout())
+		return
+	}
+	keep := before.Chunks[2]
+	q := fmt.Sprintf("truncate {%s} maxsize %d", tags, keep.Size)
+	parked := make(chan struct{})
+	release := make(chan struct{})
+	var calls int32
+	verifhook.Set("partition.truncate.chosen", func() {
+		if atomic.AddInt32(&calls, 1) == 1 {
+			close(parked)
+			<-release
+		}
+	})
+	defer verifhook.Set("partition.truncate.chosen", nil)
+	var panB, panA, stackB string
+	finB := make(chan struct{})
+	go func() {
+		defer close(finB)
+		defer func() {
+			if r := recover(); r != nil {
+				panB = fmt.Sprint(r)
+				stackB = string(debug.Stack())
+			}
+		}()
+		srv.Admin.Execute(api.ExecRequest{Query: q})
+	}()
+	select {
+	case <-parked:
+	case <-finB:
+		res.Dist(sec, "hook point partition.truncate.chosen not reached: interleaving not exercised")
+		return
+	case <-time.After(10 * time.Second):
+		res.Note("trunc2race: statement B neither parked nor finished within 10 s")
+		return
+	}
+	vh.WithTimeout(20*time.Second, func() { panA = vh.Recover(func() { srv.Admin.Execute(api.ExecRequest{Query: q}) }) })
+	// A's chunks are closed and their files removed asynchronously: wait until only the kept chunk's file is left
+	for i := 0; i < 400 && datFiles(dir) > 1; i++ {
+		time.Sleep(10 * time.Millisecond)
+	}
+	time.Sleep(20 * time.Millisecond)
+	close(release)
+	select {
+	case <-finB:
+	case <-time.After(20 * time.Second):
+		panB = "statement B did not finish within 20 s after its release"
+	}
+	res.Eval(sec, q)
+	in := map[string]interface{}{"stmt_A": q, "stmt_B": q, "before": before.layout(),
+		"interleaving": "B: snapshot, loops choose chunks 1-2, parked | A: whole statement, chunks 1-2 closed and their files removed | B: DeleteChunks(cks[1].Id(), …)"}
+	if panA != "" || panB != "" {
+		// class of finding F56: a chunk object taken from Chunks() before a concurrent DeleteChunks closed it is dereferenced
+		// (chunkWrapper.Id/Size/Count read cw.chunk, which closeInternal sets to nil, without the wrapper's lock)
+		f := vh.SpecFailure{Section: "trunc2race", Kind: "panic-on-removed-chunk", Input: in, Impl: fmt.Sprintf("A: %q B: %q", panA, panB), Spec: "both statements complete",
+			Model: "outside the model (the model's chunks are values)", ImplEqModel: false,
+			What: "a TRUNCATE that overlaps another one on the same partition panics (nil pointer) when it touches a chunk the other statement has already removed; on a server this ends the process"}
+		if strings.Contains(panB, "nil pointer") && panA == "" && strings.Contains(stackB, "ctrlr.(*chunkWrapper)") {
+			f.Finding = "F56"
+			f.ImplEqModel = true // the class is a crash of the implementation; there is no model outcome to differ from
+		}
+		res.SpecFail(f)
+		return
+	}
+	after := observe(srv, tags)
+	if fmt.Sprint(after.seqs()) != fmt.Sprint(keep.Seqs) {
+		res.SpecFail(vh.SpecFailure{Section: "trunc2race", Kind: "not-a-suffix", Input: in, Impl: after.layout(), Spec: fmt.Sprint(keep.Seqs),
+			What: "after two overlapping TRUNCATE statements the partition does not hold exactly the newest chunk"})
+	}
+}
+
+// ---------------------------------------------------------------------------------------------
+// restartleft: a graceful stop after a TRUNCATE acknowledgement whose chunk files are not removed yet, then a restart
+
+func sectionRestartLeft() {
+	sec := res.Section("restartleft", "spec-search",
+		"one partition of three chunks; a reader holds a record of the oldest chunk (an open chunk iterator after Get: the chunk's asynchronous close-and-remove waits for it); TRUNCATE MAXSIZE keeps the newest chunk and is acknowledged, the content is the newest chunk's events; the server is stopped gracefully and the data directory is copied at that moment (what a process exiting there leaves behind); a server started on the copy must return the same content - content after a TRUNCATE stays a suffix across a restart, removed events do not come back")
+	defer res.Done(sec)
+	dir := lrsrv.NewDir()
+	img := dir + ".img"
+	defer os.RemoveAll(dir)
+	defer os.RemoveAll(img)
+	srv, err := lrsrv.Start(dir, lrsrv.Opts{MaxChunkSize: 100})
+	if err != nil {
+		res.Note("restartleft: %v", err)
+		return
+	}
+	tags := "g=s,p=1"
+	var evs []*api.LogEvent
+	for i := 1; i <= 15; i++ {
+		evs = append(evs, &api.LogEvent{Timestamp: int64(i), Message: fmt.Sprintf("%04d_", i)})
+	}
+	var wr api.WriteResult
+	srv.Client.Write(context.Background(), tags, "", evs, &wr)
+	srv.FlushWait()
+	settle(srv, tags, 15)
+	before := observe(srv, tags)
+	if len(before.Chunks) != 3 {
+		srv.Stop()
+		res.Note("restartleft: layout is not three chunks: %s", before.layout())
+		return
+	}
+	// the slow reader
+	ctx := context.Background()
+	var held interface{ Close() error }
+	if src, _, err := srv.TIndex.GetJournal(tags); err == nil {
+		if j, err := srv.Journals.GetOrCreate(ctx, src); err == nil {
+			if cks, _ := j.Chunks().Chunks(ctx); len(cks) == 3 {
+				if it, err := cks[0].Iterator(); err == nil {
+					it.Get(ctx)
+					held = it
+				}
+			}
+		}
+		srv.TIndex.Release(src)
+	}
+	q := fmt.Sprintf("truncate {%s} maxsize %d", tags, before.Chunks[2].Size)
+	out, xerr := srv.Exec(q)
+	afterTrunc := fullRead(srv, tags)
+	filesAtAck := datFiles(dir)
+	srv.Stop()
+	filesAtStop := datFiles(dir)
+	exec.Command("cp", "-a", dir, img).Run()
+	if held != nil {
+		held.Close()
+	}
+	res.Eval(sec, q)
+	res.Dist(sec, fmt.Sprintf("chunk data files: 3 before, %d at the acknowledgement, %d after the graceful stop", filesAtAck, filesAtStop))
+	in := map[string]interface{}{"stmt": q, "before": before.layout(), "reader": "an open chunk iterator holding a record of the oldest chunk", "after_truncate": afterTrunc,
+		"then": "graceful stop; copy of the data directory; start on the copy; select from {" + tags + "}"}
+	want, _ := readSeqs(afterTrunc)
+	if xerr != nil || fmt.Sprint(want) != fmt.Sprint(before.Chunks[2].Seqs) {
+		res.SpecFail(vh.SpecFailure{Section: "restartleft", Kind: "not-a-suffix", Input: in, Impl: fmt.Sprint(afterTrunc, xerr), Spec: fmt.Sprint(before.Chunks[2].Seqs), What: "TRUNCATE with a reader inside the oldest chunk: content afterwards is not the newest chunk " + strings.TrimSpace(out)})
+		return
+	}
+	srv2, err := lrsrv.Start(img, lrsrv.Opts{MaxChunkSize: 100})
+	if err != nil {
+		res.SpecFail(vh.SpecFailure{Section: "restartleft", Kind: "restart-refused", Input: in, Impl: err.Error(), Spec: "starts", What: "the server does not start on the directory a graceful stop after TRUNCATE left"})
+		return
+	}
+	defer srv2.Stop()
+	got, gerr := readSeqs(fullRead(srv2, tags))
+	if gerr != "" || fmt.Sprint(got) != fmt.Sprint(want) {
+		// class of finding F57: chunk files of removed chunks were still in the directory when the server stopped
+		f := vh.SpecFailure{Section: "restartleft", Kind: "removed-events-reappear-after-restart", Input: in, Impl: fmt.Sprintf("%v %s", got, gerr), Spec: fmt.Sprint(want),
+			Model: "outside the model (no persistence of the removal)", ImplEqModel: true,
+			What: fmt.Sprintf("events a TRUNCATE had removed (and whose removal it had acknowledged) are back after a graceful stop and restart: %d chunk data files were still on disk when the server stopped", filesAtStop)}
+		if filesAtStop > 1 && isSuffix(want, got) && gerr == "" {
+			f.Finding = "F57"
+		}
+		res.SpecFail(f)
+	}
+}
+
+// ---------------------------------------------------------------------------------------------
 // sizerace: a write confirmed between `size := jrnl.Size()` and the loops of truncate (hook partition.truncate.sized)
 
 func sectionSizeRace() {
@@ -2230,5 +2430,7 @@ func main() {
 	sectionSizeRace()
 	sectionDropRace()
 	sectionBeforeRace()
+	sectionTrunc2Race()
+	sectionRestartLeft()
 	res.Write(args.Out)
 }
